@@ -7,7 +7,7 @@ Local Open Scope N_scope.
 
 (* ---- the tie to the code: src/polyseed.c as TRANSLATED on this run (Gen/CApi.v) ---- *)
 From Coq Require Import String.
-From PS Require Import Base GFDefs PackDefs StoreDefs MiscDefs StrDefs LangDefs ApiDefs SpecDefs SpecApi GFProofs PackProofs StoreProofs RefineProofs RoundTrip CTieBase CTieLang CTiePhrase CTiePhraseEv CTieSplit CTieApi CTieDecode CTieEncode CTieLocals CTieInject CTieCmp CTieSearch CTieClosed CodeTheorems CodeMachine.
+From PS Require Import Base GFDefs PackDefs StoreDefs MiscDefs StrDefs LangDefs ApiDefs SpecDefs SpecApi GFProofs PackProofs StoreProofs RefineProofs RoundTrip TraceProofs FrameProofs CTieBase CTieLang CTiePhrase CTiePhraseEv CTieSplit CTieApi CTieDecode CTieEncode CTieLocals CTieInject CTieCmp CTieSearch CTieClosed CodeTheorems CodeMachine.
 From PS.Gen Require Import Consts PrivConsts Langs.
 From PS.Gen Require CFuns.
 From PS.Gen Require CApi.
@@ -119,6 +119,29 @@ Theorem C16_code_tie_api_encode :
          end.
 Proof. exact @tie_encode. Qed.
 Print Assumptions C16_code_tie_api_encode.
+
+(* ON THE CODE: every free among the events of a call of the translated code is preceded by the wipe of the whole block *)
+Theorem C16_code_tie_machine_frees_wiped :
+  forall (sgn : bool) (fuel : nat) (ext : Z -> list Z -> Z) (OKW : bytes -> Prop),
+         (forall (li : nat) (L : lang) (w : bytes),
+          OKW w -> nth_error langs li = Some L -> ext (Z.of_nat li) (zs w) = enc (lang_search sgn L w)) ->
+         (forall t : bytes, no_nul t -> (Datatypes.length t + 2 <= fuel)%nat -> OKW t) ->
+         (18 <= fuel)%nat ->
+         forall (st : state) (o : op),
+         op_ready sgn fuel st o -> frees_wiped None (snd (cstep sgn fuel ext st o)) = true.
+Proof. exact @code_frees_wiped. Qed.
+Print Assumptions C16_code_tie_machine_frees_wiped.
+
+(* ON THE CODE: every automatic object tainted on the exit taken is wiped among the events of the call of the translated code *)
+Theorem C16_code_tie_machine_frame_clean :
+  forall (sgn : bool) (fuel : nat) (ext : Z -> list Z -> Z) (OKW : bytes -> Prop),
+         (forall (li : nat) (L : lang) (w : bytes),
+          OKW w -> nth_error langs li = Some L -> ext (Z.of_nat li) (zs w) = enc (lang_search sgn L w)) ->
+         (forall t : bytes, no_nul t -> (Datatypes.length t + 2 <= fuel)%nat -> OKW t) ->
+         (18 <= fuel)%nat ->
+         forall (st : state) (o : op), op_ready sgn fuel st o -> frame_clean o (cstep sgn fuel ext st o) = true.
+Proof. exact @code_frame_clean. Qed.
+Print Assumptions C16_code_tie_machine_frame_clean.
 
 (* the automatic arrays and structs of every translated API function, as found in the current source, are the objects the wipe accounting knows plus the two public salts: a new temporary breaks this *)
 Theorem C16_code_tie_locals :
